@@ -70,10 +70,14 @@ End Chain.
 
 (** non-vacuity + the two laws quoted in the property, on a concrete exact run:
     (A ∪ B) \ B and A \ (A \ B) through the model *)
-Example chain_example :
-  exists R,
-    boolean_operation release 1000 F1_A F1_B Union = Ok R /\ length R = 2%nat /\
-    cert01_run NumQ.NQ conv_Q release 1000 F1_A F1_B Union = true /\
-    cert02_run NumQ.NQ conv_Q release 1000 F1_A F1_B Union = true /\
-    cert01_run NumQ.NQ conv_Q release 1000 R F1_B Difference = true.
-Proof. eexists. split; [vm_compute; reflexivity|]. repeat split; vm_compute; reflexivity. Qed.
+Definition chain_example_check : bool :=
+  match boolean_operation release 1000 F1_A F1_B Union with
+  | Ok R =>
+      Nat.eqb (length R) 2 &&
+      cert01_run NumQ.NQ conv_Q release 1000 F1_A F1_B Union &&
+      cert02_run NumQ.NQ conv_Q release 1000 F1_A F1_B Union &&
+      cert01_run NumQ.NQ conv_Q release 1000 R F1_B Difference
+  | _ => false
+  end.
+Example chain_example : chain_example_check = true.
+Proof. vm_compute. reflexivity. Qed.
